@@ -3,6 +3,8 @@ CONSTANTS
   Classes <- Classes4
   Outs <- OutsC13
   Durs = {0, 1}
+  CDurs <- ZeroDur
+  EDurs <- ZeroDur
   Rets <- RetsTwo
   Advs <- AdvsC13
   Decs <- DecsAll
